@@ -38,8 +38,8 @@ Section Loop.
   }.
 
   (* what a step does to the nodes, as far as the bookkeeping is concerned *)
-  Lemma step_out_nodes : forall rk st cur curn d insq st' insq',
-    inv rk st -> nth_error (s_tree st) cur = Some curn ->
+  Lemma step_out_nodes : forall rk rvk st cur curn d insq st' insq',
+    inv rk rvk st -> nth_error (s_tree st) cur = Some curn ->
     step_out st cur curn d insq st' insq' ->
     (forall i n0, nth_error (s_tree st) i = Some n0 ->
        exists n, nth_error (s_tree st') i = Some n /\ t_ideps n = t_ideps n0 /\ t_processed n = t_processed n0 /\
@@ -49,11 +49,11 @@ Section Loop.
     (forall i, In i insq -> In i insq') /\
     (forall i, In i insq' -> In i insq \/ exists n, nth_error (s_tree st') i = Some n /\ t_id n <> 0).
   Proof.
-    intros rk st cur curn d insq st' insq' I Hcur O.
-    destruct (iv_root _ _ _ _ _ I) as [rn [Hrn [Hrp Hrid]]].
+    intros rk rvk st cur curn d insq st' insq' I Hcur O.
+    destruct (iv_root _ _ _ _ _ _ I) as [rn [Hrn [Hrp [Hrid Hrk]]]].
     assert (Hl0 : 0 < length (s_tree st)) by (apply nth_error_Some; congruence).
     assert (Hg1 : 0 < length (g_nodes (s_g st))).
-    { apply nth_error_Some. rewrite (iv_g0 _ _ _ _ _ I). discriminate. }
+    { apply nth_error_Some. rewrite (iv_g0 _ _ _ _ _ _ I). discriminate. }
     destruct O.
     - (* error *)
       split; [|split; [|split]].
@@ -70,7 +70,7 @@ Section Loop.
       + subst insq'. auto.
     - (* reuse *)
       destruct Hre as [p [pn [Hp Hpe]]].
-      destruct (iv_entry _ _ _ _ _ I _ _ _ Hp Hpe) as [rn' [Hrn' Hrpar]]. rewrite Hr in Hrn'. inversion Hrn'; subst rn'.
+      destruct (iv_entry _ _ _ _ _ _ I _ _ _ Hp Hpe) as [rn' [Hrn' Hrpar]]. rewrite Hr in Hrn'. inversion Hrn'; subst rn'.
       assert (Hr0 : r <> 0). { intro Z. subst r. rewrite Hrn in Hr. inversion Hr; subst. contradiction. }
       set (k := length (g_nodes (s_g st))) in *.
       assert (Hlen : length (s_tree st') = length (s_tree st)).
@@ -89,7 +89,7 @@ Section Loop.
              split; auto. split; auto. right.
              assert (Hunp : t_processed rn0 = false).
              { destruct (t_processed rn0) eqn:Ep; auto. exfalso.
-               destruct (iv_node _ _ _ _ _ I _ _ Hr) as [_ [_ [_ [_ [_ [_ M7]]]]]]. destruct (M7 Ep); congruence. }
+               destruct (iv_node _ _ _ _ _ _ I _ _ Hr) as [_ [_ [_ [_ [_ [_ M7]]]]]]. destruct (M7 Ep); congruence. }
              repeat split; auto.
              ++ rewrite C6. unfold k. lia.
              ++ rewrite Hq, Hunp. apply in_or_app. right. left. reflexivity.
@@ -131,20 +131,20 @@ Section Loop.
   Qed.
 
   (* ---------- the inner loop ---------- *)
-  Lemma process_deps_inv : forall rk ifuel rest done st cur curn insq q' st' insq',
-    inv rk st -> pinv st (insq ++ q') (Some (cur, done)) ->
+  Lemma process_deps_inv : forall rk rvk ifuel rest done st cur curn insq q' st' insq',
+    inv rk rvk st -> pinv st (insq ++ q') (Some (cur, done)) ->
     nth_error (s_tree st) cur = Some curn -> t_processed curn = true ->
     t_ideps curn = done ++ rest ->
     process_deps ifuel st cur rest insq = Ok (st', insq') ->
-    inv rk st' /\ pinv st' (insq' ++ q') (Some (cur, done ++ rest)) /\
+    inv rk rvk st' /\ pinv st' (insq' ++ q') (Some (cur, done ++ rest)) /\
     exists curn', nth_error (s_tree st') cur = Some curn' /\ t_ideps curn' = t_ideps curn.
   Proof.
-    intros rk ifuel rest. induction rest as [|d rest IH]; intros done st cur curn insq q' st' insq' I P Hcur Hp Hid H.
+    intros rk rvk ifuel rest. induction rest as [|d rest IH]; intros done st cur curn insq q' st' insq' I P Hcur Hp Hid H.
     - simpl in H. inversion H; subst. rewrite app_nil_r. split; auto. split; auto. eauto.
     - simpl in H. apply bind_ok in H. destruct H as [[st1 insq1] [Hs H]]. simpl in H.
       assert (Hd : In d (t_ideps curn)) by (rewrite Hid; apply in_or_app; right; left; reflexivity).
-      destruct (step_dep_inv _ _ _ _ _ _ _ _ _ _ _ _ _ I Hcur Hp Hd Hs) as [I1 [GL [Hh O]]].
-      destruct (step_out_nodes _ _ _ _ _ _ _ _ I Hcur O) as [Hold [Hnew [Hsub Hin]]].
+      destruct (step_dep_inv _ _ _ _ _ _ _ _ _ _ _ _ _ _ I Hcur Hp Hd Hs) as [I1 [GL [Hh O]]].
+      destruct (step_out_nodes _ _ _ _ _ _ _ _ _ I Hcur O) as [Hold [Hnew [Hsub Hin]]].
       destruct (Hold _ _ Hcur) as [curn1 [Hcur1 [Cid [Cp Cidn]]]].
       assert (Cid1 : t_id curn1 = t_id curn).
       { destruct Cidn as [E|[_ [_ [F _]]]]; auto. congruence. }
@@ -192,11 +192,11 @@ Section Loop.
   Qed.
 
   (* marking a pending node processed *)
-  Lemma set_processed_inv : forall rk st cur curn,
-    inv rk st -> nth_error (s_tree st) cur = Some curn -> has_id cur curn ->
-    inv rk {| s_tree := upd cur set_processed (s_tree st); s_g := s_g st; s_log := s_log st |}.
+  Lemma set_processed_inv : forall rk rvk st cur curn,
+    inv rk rvk st -> nth_error (s_tree st) cur = Some curn -> has_id cur curn ->
+    inv rk rvk {| s_tree := upd cur set_processed (s_tree st); s_g := s_g st; s_log := s_log st |}.
   Proof.
-    intros rk st cur curn I Hcur Hh.
+    intros rk rvk st cur curn I Hcur Hh.
     assert (Hnth : forall i n, nth_error (upd cur set_processed (s_tree st)) i = Some n ->
               exists m, nth_error (s_tree st) i = Some m /\ t_ver n = t_ver m /\ t_pkg n = t_pkg m /\
                 t_ideps n = t_ideps m /\ t_parent n = t_parent m /\ t_id n = t_id m /\ t_bundled n = t_bundled m /\
@@ -211,11 +211,11 @@ Section Loop.
       - subst i. exists (set_processed m). rewrite nth_upd_same, Hm. simpl. repeat split; auto.
       - exists m. rewrite nth_upd_other; auto. repeat split; auto. }
     constructor; cbn [s_tree s_g s_log g_nodes g_edges g_errors].
-    - destruct (iv_root _ _ _ _ _ I) as [rn [Hrn [Hrp Hrid]]]. destruct (Hfw _ _ Hrn) as [n [Hn [_ [_ [F1 [F2 _]]]]]].
-      exists n. repeat split; congruence.
-    - apply (iv_g0 _ _ _ _ _ I).
+    - destruct (iv_root _ _ _ _ _ _ I) as [rn [Hrn [Hrp [Hrid Hrk]]]]. destruct (Hfw _ _ Hrn) as [n [Hn [F0 [_ [F1 [F2 F3]]]]]].
+      exists n. repeat split; try congruence. unfold gkey in *. rewrite F0, F3. exact Hrk.
+    - apply (iv_g0 _ _ _ _ _ _ I).
     - intros i n Hn. destruct (Hnth _ _ Hn) as [m [Hm [E2 [E3 [E4 [E5 [E6 [E7 [_ Ep]]]]]]]]].
-      destruct (iv_node _ _ _ _ _ I _ _ Hm) as [M1 [M2 [M3 [M4 [M5 [M6 M7]]]]]].
+      destruct (iv_node _ _ _ _ _ _ I _ _ Hm) as [M1 [M2 [M3 [M4 [M5 [M6 M7]]]]]].
       unfold Npm_inv.node_ok, ideps_ok, gkey in *. rewrite E2, E4, E5, E6, E7.
       repeat split; auto.
       + intro F. destruct (M6 F) as [Z|[Z1 Z2]]; auto.
@@ -224,12 +224,12 @@ Section Loop.
       + intro F. destruct Ep as [Ep|[Ep1 Ep2]].
         * apply M7. congruence.
         * subst i. rewrite Hcur in Hm. inversion Hm; subst m. exact Hh.
-    - intros k Hk Hkl. destruct (iv_gnode _ _ _ _ _ I k Hk Hkl) as [i [m [Hm Hid]]].
+    - intros k Hk Hkl. destruct (iv_gnode _ _ _ _ _ _ I k Hk Hkl) as [i [m [Hm Hid]]].
       destruct (Hfw _ _ Hm) as [n [Hn [_ [_ [_ [F _]]]]]]. exists i, n. split; auto. congruence.
     - intros p pn c Hp Hc. destruct (Hnth _ _ Hp) as [m [Hm [_ [_ [_ [_ [_ [_ [He _]]]]]]]]].
-      destruct (iv_entry _ _ _ _ _ I _ _ _ Hm (He _ Hc)) as [cn [Hcn Hcp]].
+      destruct (iv_entry _ _ _ _ _ _ I _ _ _ Hm (He _ Hc)) as [cn [Hcn Hcp]].
       destruct (Hfw _ _ Hcn) as [n [Hn [_ [_ [F _]]]]]. exists n. split; auto. congruence.
-    - eapply Forall2_impl; [|apply (iv_log _ _ _ _ _ I)].
+    - eapply Forall2_impl; [|apply (iv_log _ _ _ _ _ _ I)].
       intros l e [x [t [dvers [Hx [Ht [Hxid [Htid [Htp [Hin [Hm [E1 [E2 [E3 [E4 [E5 E6]]]]]]]]]]]]]]].
       destruct (Hfw _ _ Hx) as [x' [Hx' [X1 [X2 [X3 [X4 X5]]]]]].
       destruct (Hfw _ _ Ht) as [t' [Ht' [T1 [T2 [T3 [T4 T5]]]]]].
@@ -237,15 +237,15 @@ Section Loop.
       + intro F. unfold Npm_lemmas.reuse_ok in *. rewrite T1, T5. auto.
       + apply E6 in H. destruct H. congruence.
       + apply E6 in H. destruct H as [_ [wp [W1 W2]]]. exists wp. split; congruence.
-    - apply (iv_reach _ _ _ _ _ I).
+    - apply (iv_reach _ _ _ _ _ _ I).
   Qed.
 
   (* ---------- the main loop ---------- *)
-  Theorem outer_inv : forall rk ifuel fuel st q st',
-    inv rk st -> pinv st q None -> outer ifuel fuel st q = Ok st' ->
-    inv rk st' /\ pinv st' [] None.
+  Theorem outer_inv : forall rk rvk ifuel fuel st q st',
+    inv rk rvk st -> pinv st q None -> outer ifuel fuel st q = Ok st' ->
+    inv rk rvk st' /\ pinv st' [] None.
   Proof.
-    intros rk ifuel fuel. induction fuel as [|f IH]; intros st q st' I P H.
+    intros rk rvk ifuel fuel. induction fuel as [|f IH]; intros st q st' I P H.
     - destruct q; simpl in H; [|discriminate]. inversion H; subst. auto.
     - destruct q as [|cur q']; simpl in H.
       { inversion H; subst. auto. }
@@ -260,7 +260,7 @@ Section Loop.
         destruct (pv_pending _ _ _ P cur (or_introl eq_refl)) as [curn' [Hcur' Hh]].
         rewrite Hcur in Hcur'. inversion Hcur'; subst curn'.
         set (st1 := {| s_tree := upd cur set_processed (s_tree st); s_g := s_g st; s_log := s_log st |}) in *.
-        assert (I1 : inv rk st1) by (eapply set_processed_inv; eauto).
+        assert (I1 : inv rk rvk st1) by (eapply set_processed_inv; eauto).
         assert (Hc1 : nth_error (s_tree st1) cur = Some (set_processed curn)).
         { simpl. rewrite nth_upd_same, Hcur. reflexivity. }
         assert (P1 : pinv st1 ([] ++ q') (Some (cur, []))).
@@ -277,7 +277,7 @@ Section Loop.
             + rewrite Nat.eqb_refl in Hx. destruct Hx.
             + apply Nat.eqb_neq in E1. rewrite Nat.eqb_sym in E1. rewrite E1 in Hx.
               apply (pv_done _ _ _ P _ _ Hm Hpr). exact Hx. }
-        destruct (process_deps_inv rk ifuel (t_ideps curn) [] st1 cur (set_processed curn) [] q' st2 insq
+        destruct (process_deps_inv rk rvk ifuel (t_ideps curn) [] st1 cur (set_processed curn) [] q' st2 insq
                     I1 P1 Hc1 eq_refl eq_refl Hpd) as [I2 [P2 [curn2 [Hc2 Hi2]]]].
         apply IH in H; auto. simpl in P2. constructor.
         * apply (pv_pending _ _ _ P2).
@@ -291,7 +291,7 @@ Section Loop.
   Theorem resolve_inv : forall fuel rk r,
     resolve fuel rk = Ok r ->
     let st := {| s_tree := r_tree r; s_g := r_graph r; s_log := r_log r |} in
-    inv rk st /\ pinv st [] None.
+    exists v, c_version rk = Ok v /\ inv rk (v_key v) st /\ pinv st [] None.
   Proof.
     intros fuel rk r H. unfold Npm.resolve in H.
     destruct (negb (N.eqb (vk_type rk) T_Concrete)); [discriminate|].
@@ -308,9 +308,10 @@ Section Loop.
     assert (Hnew : forall i m, 1 <= i -> nth_error tree i = Some m -> fresh_bundled i m).
     { intros i m Hi Hm. destruct (N i m Hi Hm) as [F _]. exact F. }
     set (st0 := {| s_tree := tree; s_g := {| g_nodes := [rk]; g_edges := []; g_errors := [] |}; s_log := [] |}).
-    assert (I0 : inv rk st0).
+    assert (I0 : inv rk (v_key v) st0).
     { unfold st0. constructor; cbn [s_tree s_g s_log g_nodes g_edges g_errors].
-      - exists rn. subst root0 root. simpl in *. repeat split; congruence.
+      - exists rn. subst root0 root. simpl in *. repeat split; try congruence.
+        unfold gkey. rewrite R7, R2. reflexivity.
       - reflexivity.
       - intros i n Hn. destruct i as [|i].
         + rewrite Hrn in Hn. inversion Hn; subst n. subst root0 root. simpl in *.
@@ -339,7 +340,7 @@ Section Loop.
       - intros i n Hn Hpr. exfalso. destruct i as [|i].
         + rewrite Hrn in Hn. inversion Hn; subst n. subst root0 root. simpl in *. congruence.
         + destruct (Hnew (S i) n) as [b [p [_ [_ [_ [_ [F5 _]]]]]]]; [lia | exact Hn | congruence]. }
-    destruct (outer_inv _ _ _ _ _ _ I0 P0 Hout) as [I1 P1].
-    destruct st as [t1 g1 l1]. simpl in *. auto.
+    destruct (outer_inv _ _ _ _ _ _ _ I0 P0 Hout) as [I1 P1].
+    destruct st as [t1 g1 l1]. simpl in *. exists v. auto.
   Qed.
 End Loop.
